@@ -619,6 +619,9 @@ def parse_rvalue(s):
         if c:
             return c
         return Rvalue('use', parse_operand(s))
+    if s.startswith('&raw const (fake) '):
+        # address taken only for the borrow checker (match guards / pointer comparisons in the lowering)
+        return Rvalue('ref', 'raw', parse_place(s[len('&raw const (fake) '):]))
     if s.startswith('&raw const '):
         return Rvalue('ref', 'raw', parse_place(s[len('&raw const '):]))
     if s.startswith('&raw mut '):
